@@ -230,12 +230,53 @@ def parts(tier):
                         rule="interval sets and insertion points on the ulp-neighbour grid %s: an entry ending one ulp after s straddles it, one "
                              "ending at s does not" % (ugrid,), bounds={"oracle": "structural+1e-9"}, snippet=_snippet))
 
+    bgrid = D.BIG
+
+    def gen_big():
+        for s_ in D.interval_sets(bgrid, 2 if quick else 3):
+            for e in ([D.labelled(s_, "abc")] + ([D.labelled(s_, "a")] if len(s_) > 1 else [])):
+                for s0 in bgrid:
+                    for d in (2.0 ** -7, 0.5, 2.0):
+                        yield (e, bgrid[0], bgrid[-1], s0, d)
+
+    ps.append(InputPart("insertSpace-intervals-far-from-zero", gen_big, lambda c: _check_iv(c, True),
+                        rule="interval sets and insertion points on the dyadic grid 2**40 + {0, 2**-7, 0.25, 0.5, 1, 2, 3, 4} x d in {2**-7, 0.5, 2}: "
+                             "bit-exact (a relative tolerance is a real duration at this magnitude)", bounds={"oracle": "bit-exact"}, snippet=_snippet))
+
+    # spans on the negative side of the time axis, reaching exactly 0 before or after the call (a falsy 0.0 is a legitimate timestamp)
+    ngrid = (-4.0, -3.0, -2.0, -1.0, 0.0)
+
+    def gen_neg():
+        for hi_ in (-1.0, 0.0):
+            g = tuple(x for x in ngrid if x <= hi_)
+            for s_ in D.interval_sets(g, 2):
+                e = D.labelled(s_, "abc")
+                for s0 in g + (-2.5, -0.5):
+                    if s0 > hi_:
+                        continue
+                    for d in (0.5, 1.0, 2.0):
+                        yield (e, -4.0, hi_, s0, d)
+
+    ps.append(InputPart("insertSpace-intervals-negative-times", gen_neg, lambda c: _check_iv(c, True),
+                        rule="interval sets on spans [-4,-1] and [-4,0] x every s x d in {0.5, 1, 2} (the lengthened span may end exactly at 0; the inverse "
+                             "may have to restore a span end of exactly 0), bit-exact", bounds={"oracle": "bit-exact"}, snippet=_snippet))
+
     def gen_pt():
         for s in D.point_sets(D.unit_grid(5), 3 if quick else 4):
             p = D.labelled_points(s)
             for s0 in D.half_grid(0, 4):
                 for d in durs:
                     yield (p, 0.0, 4.0, s0, d)
+        for s in D.point_sets((-4.0, -3.0, -2.0, -1.0), 2):
+            p = D.labelled_points(s)
+            for s0 in (-4.0, -2.5, -2.0, -1.0):
+                for d in (0.5, 1.0):
+                    yield (p, -4.0, -1.0, s0, d)
+        for s in D.point_sets(bgrid, 2):
+            p = D.labelled_points(s, "x")
+            for s0 in bgrid:
+                for d in (2.0 ** -7, 1.0):
+                    yield (p, bgrid[0], bgrid[-1], s0, d)
         for s in D.point_sets(D.DEC, 2 if quick else 3):
             p = D.labelled_points(s)
             for s0 in dS:
@@ -246,8 +287,8 @@ def parts(tier):
             for s0 in ugrid:
                 yield (p, ugrid[0], ugrid[-1], s0, 0.5)
 
-    ps.append(InputPart("insertSpace-points", gen_pt, lambda c: _check_pt(c, c[1] == 0.0),
-                        rule="all point subsets x s x d (points at t <= s stay, later points move by d)",
+    ps.append(InputPart("insertSpace-points", gen_pt, lambda c: _check_pt(c, c[1] in (0.0, -4.0, D.BIG0)),
+                        rule="all point subsets x s x d (points at t <= s stay, later points move by d); also on a negative span and on the far-from-zero grid",
                         bounds={"max_points": 3 if quick else 4}))
 
     tsets = D.interval_sets(D.unit_grid(5), 2)
